@@ -13,6 +13,7 @@ import Switcher.Spec.Replies
 import Switcher.Spec.Broadcast
 import Switcher.Spec.Zone
 import Switcher.Spec.NextRun
+import Switcher.Spec.IrSpec
 import Switcher.Model.Wire
 open Spec Wire
 
@@ -73,6 +74,19 @@ def parseZone (tok : String) : Option Zone := do
   | [] => none
 
 def two (n : Int) : String := (if n < 10 then "0" else "") ++ toString n
+
+/-- `ir=<u:id>,<onofftype>,<u:key>/<u:para>/<u:hex>,…` -/
+def parseIr (tok : String) : Option (List Char × Int × List IrEntry) := do
+  let body := (tok.drop 3).toString
+  match body.splitOn "," with
+  | idT :: onT :: waves =>
+    let id ← text? idT
+    let on ← int? onT
+    let ws ← waves.mapM (fun w => match w.splitOn "/" with
+      | [k, p, h] => do pure { key := ← text? k, para := ← text? p, hexCode := ← text? h : IrEntry }
+      | _ => none)
+    pure (id, on, ws)
+  | _ => none
 
 def judge : List String → String
   | ["sig", hx] =>                      -- the protocol's four signature bytes of a byte string
@@ -215,6 +229,26 @@ def judge : List String → String
         let cands := [RunDay.today, RunDay.tomorrow] ++ days.map RunDay.next
         if cands.any (fun o => decide (IsEarliest c days (ahead == "1") o) && t == renderRun o st) then "1" else "0"
     | _, _, _, _ => "bad-arg"
+  | ["c15", ir, st, md, tt, fan, sw, prev] =>       -- C15: expected outcome of build_command
+    match parseIr ir, int? tt with
+    | some (id, on, set), some t =>
+      match specCommand id on set st md t fan sw (if prev == "-" then none else some prev) with
+      | .text txt => "ok " ++ hexOfBytes (commandPayload txt) ++ " " ++ String.ofList (hexlify (le16 (commandPayload txt).length))
+      | .refused => "raise RuntimeError"
+      | .missing => "raise KeyError"
+    | _, _ => "bad-arg"
+  | ["c15caps", ir] =>
+    match parseIr ir with
+    | some (id, on, set) =>
+      let rg := tempRange set
+      s!"caps modes={",".intercalate (supportedModes set)} min={rg.1} max={rg.2} toggle={if on == 1 then 1 else 0} sepswing={if separateSwingIds.contains (String.ofList id) then 1 else 0} id={encText id}"
+    | none => "bad-arg"
+  | ["c15swing", ir, sw] =>
+    match parseIr ir with
+    | some (_, _, set) => match storedText set (if sw == "OFF" then cs!"FUN_d0" else cs!"FUN_d1") with
+      | some txt => "ok " ++ hexOfBytes (commandPayload txt) ++ " " ++ String.ofList (hexlify (le16 (commandPayload txt).length))
+      | none => "raise RuntimeError"
+    | none => "bad-arg"
   | _ => "bad-op"
 
 def main : IO Unit := do Wire.loop (← IO.getStdin) (← IO.getStdout) judge
